@@ -13,7 +13,9 @@ def tar(argv, cwd=None):
     return run_cli(TapeArchiveCli().run, argv, cwd=cwd)
 
 
-TAPE_CONFUSABLE = ["bas", "csv", "BAS", "bin", "a", "1", "12345678.123", "0.0", "bas.csv", "csv.bas", "csv.bas,a", "x.csv", "x.CSV", "a.b", ".bas", ".b", ".csv"]
+TAPE_CONFUSABLE = ["bas", "csv", "BAS", "bin", "a", "1", "12345678.123", "0.0", "bas.csv", "csv.bas", "csv.bas,a", "x.csv", "x.CSV", "a.b", ".bas", ".b", ".csv",
+                   # more than 8 characters of name, more than 3 of extension: stored (and reported) truncated
+                   "longfilename.bas", "a.data", "verylongnamenoext", "abcdefghi", "x.basic", "ninechars.csvx", "y.bas,ab"]
 
 
 def gen_name(rng, used, ext_choices=None):
